@@ -480,6 +480,18 @@ def normBR (branch : Option Str) (ref : Option NBytes) : Option Str × Option NB
       | .error _ => (none, some r)
   | none => (branch, none)
 
+/-- an empty branch name means "no branch" (used to state the round trip) -/
+def cleanBR (p : Option Str × Option NBytes) : Option Str × Option NBytes :=
+  (if p.1 = some [] then none else p.1, p.2)
+
+/-- explicit side condition of the ref-level round trip: a ref that
+`ref_to_branch_name` accepts is `HEAD`, or names a non-empty branch whose name
+does not itself start with `refs/` (excludes `refs/heads/` and `refs/heads/refs/…`) -/
+def refOk (ref : Option NBytes) : Bool :=
+  match refToBranchName ref with
+  | .ok (some n) => ref == some headRef || (n != [] && !refsSlash.isPrefixOf n)
+  | _ => true
+
 /-- the `branch` / `ref` segment parameter `git_url_to_bzr_url` appends to the
 (normalised) location -/
 def addRefParams (location : Str) (branch : Option Str) (ref : Option NBytes) : Except Err Str :=
